@@ -8,6 +8,7 @@
   (No interest accrual: venue banks cannot be borrowed from, their share values stay 1.)
 -/
 import Mfi.Model.Ix
+import Mfi.Model.Integr
 namespace Mfi.Venue
 open Mfi Mfi.Fx Mfi.Bank Mfi.Gen Mfi.Ix
 
@@ -49,5 +50,97 @@ def kaminoWithdraw (now : Int) (b : Bank) (bal : Option Balance) (amount : Int) 
     else if vPost < vPre then .error .panic
     else if !withinOne (vPost - vPre) (expectedOf c) then merr E.KaminoWithdrawFailed
     else .ok { bank := b', bal := x', collateral := c, paid := vPost - vPre }
+
+/-! ### Drift: `drift_deposit` / `drift_withdraw` (programs/marginfi/src/instructions/drift/{deposit,withdraw}.rs)
+
+Positions of a Drift bank are Drift's SCALED balances. What the handlers decide themselves — how many scaled units a deposit
+must credit, how many tokens a withdrawal may ask the venue for and how many scaled units it debits, incl. the one-unit
+boundary and the complete withdrawal — is modelled here; the CPI is a parameter (scaled balance of the bank's Drift user and
+the intermediary vault's balance before / after), as for Kamino. `dec` / `cum` = the spot market's decimals and cumulative
+deposit interest after the handler's interest update. -/
+
+def venueErr {α} : Res α := .error .mathErr     -- an error of the venue crate's conversion (its own error code)
+
+/-- `drift_deposit(amount)` from the point where the gates have passed -/
+def driftDeposit (now : Int) (b : Bank) (bal : Option Balance) (amount dec cum pre post : Int) : Res Out :=
+  match Integr.scaledBalanceIncrement dec cum amount with
+  | none => venueErr
+  | some expected =>
+    if post < pre then .error .panic
+    else if post - pre ≠ expected then merr E.DriftScaledBalanceMismatch
+    else do
+      let r ← increaseBalance b (bal.getD (freshBalance b now)) now (ofInt (post - pre)) .depositOnly
+      .ok (r.1, some r.2, post - pre)
+
+structure DPlan where
+  bank : Bank
+  bal : Balance
+  tokens : Int        -- what the venue is asked to release (and what is forwarded to the user)
+  scaled : Int        -- the scaled-balance change announced to the after-the-fact check
+  deriving DecidableEq, Repr
+
+/-- `asset_shares.to_num::<u64>()` (unchecked: floor, wrapping) -/
+def sharesU64 (x : Balance) : Int := (x.a / ONE) % 18446744073709551616
+
+/-- complete withdrawal: the token amount the whole scaled balance is worth (floor), one base unit less when Drift's
+    round-up on the decrement would need one scaled unit more than there is; with the decrement of what is asked for -/
+def driftAllAmounts (dec cum scaledBal : Int) : Option (Int × Int) :=
+  match Integr.withdrawTokenAmount dec cum scaledBal with
+  | none => none
+  | some t =>
+    match Integr.scaledBalanceDecrement dec cum t with
+    | none => none
+    | some e =>
+      if e = scaledBal + 1 ∧ t > 0 then
+        match Integr.scaledBalanceDecrement dec cum (t - 1) with
+        | none => none
+        | some e' => some (t - 1, e')
+      else some (t, e)
+
+/-- partial withdrawal: the amount asked for with its decrement; on the one-unit boundary (decrement = shares + 1) the
+    amount is recomputed from the shares; more than one unit over is refused (`none` = a conversion failed) -/
+def driftPartialAmounts (dec cum amount shares : Int) : Res (Option (Int × Int)) :=
+  match Integr.scaledBalanceDecrement dec cum amount with
+  | none => .ok none
+  | some d =>
+    if d > shares + 1 then merr E.OperationWithdrawOnly
+    else if d = shares + 1 then
+      match Integr.withdrawTokenAmount dec cum shares with
+      | none => .ok none
+      | some t =>
+        match Integr.scaledBalanceDecrement dec cum t with
+        | none => .ok none
+        | some d' => .ok (some (t, d'))
+    else .ok (some (amount, d))
+
+/-- the amount selection of `drift_withdraw(amount, withdraw_all)` and the booking -/
+def driftWithdrawPlan (now : Int) (b : Bank) (x : Balance) (amount : Int) (all : Bool) (dec cum : Int) : Res DPlan :=
+  if all then do
+    let (b', x', scaledBal) ← withdrawAll b x now
+    match driftAllAmounts dec cum scaledBal with
+    | none => venueErr
+    | some (t, e) =>
+      if scaledBal < e then merr E.MathError
+      else .ok { bank := b', bal := x', tokens := t, scaled := e }
+  else do
+    let sel ← driftPartialAmounts dec cum amount (sharesU64 x)
+    match sel with
+    | none => venueErr
+    | some (t, d) => do
+      let (b', x') ← decreaseBalance b x now (ofInt d) .withdrawOnly
+      .ok { bank := b', bal := x', tokens := t, scaled := d }
+
+/-- `drift_withdraw` outside receivership / deleverage, up to the health check: the plan, then the after-the-fact checks on
+    what the venue did (`sbPre/sbPost` scaled balance of the bank's Drift user, `vPre/vPost` intermediary vault) -/
+def driftWithdraw (now : Int) (b : Bank) (bal : Option Balance) (amount : Int) (all : Bool) (dec cum sbPre sbPost vPre vPost : Int) : Res DPlan :=
+  match bal with
+  | none => merr E.BankAccountNotFound
+  | some x => do
+    let p ← driftWithdrawPlan now b x amount all dec cum
+    if all ∧ p.tokens = 0 then .ok p          -- what is left is worth less than one base unit: nothing is asked of the venue
+    else if vPost < vPre ∨ sbPre < sbPost then .error .panic
+    else if vPost - vPre ≠ p.tokens then merr E.DriftWithdrawFailed
+    else if sbPre - sbPost ≠ p.scaled then merr E.DriftScaledBalanceMismatch
+    else .ok p
 
 end Mfi.Venue
